@@ -1013,7 +1013,11 @@ pub fn cmp_panics(h: usize, op: usize, st: &mut FStats) -> R {
                 && ThinArc::strong_count(&ty) == 1
                 && Arc::count(&fx) == 1
                 && Arc::count(&lx) == 1,
-            "C07,C04",
+            match h {
+                3 => "C07,C04,C12",
+                4 => "C07,C04,C10",
+                _ => "C07,C04",
+            },
             "faults",
             "{}: a count moved: {} {} {} {} {} {}",
             what,
